@@ -219,16 +219,25 @@ func (d *Document) GetPageSettings() *PageSettings {
 
 		// 判断是否为预定义尺寸
 		settings.Size = identifyPageSize(width, height)
-		if settings.Size == PageSizeCustom {
-			settings.CustomWidth = width
-			settings.CustomHeight = height
-		}
 
 		// 设置方向
 		if sectPr.PageSize.Orient == string(OrientationLandscape) {
 			settings.Orientation = OrientationLandscape
 		} else {
 			settings.Orientation = OrientationPortrait
+		}
+
+		if settings.Size == PageSizeCustom {
+			// w:pgSz 中保存的是已经按方向旋转后的物理尺寸；CustomWidth/CustomHeight 是旋转前
+			// （纵向）的尺寸，SetPageSettings 会按方向再交换一次，所以横向时这里要换回来，
+			// 否则每次“读取-修改-写回”（SetPageMargins 等）都会把自定义横向页面的宽高对调
+			if settings.Orientation == OrientationLandscape {
+				settings.CustomWidth = height
+				settings.CustomHeight = width
+			} else {
+				settings.CustomWidth = width
+				settings.CustomHeight = height
+			}
 		}
 	}
 
